@@ -108,9 +108,8 @@ func checkOpenFault(c openFaultCase) *vt.Fail {
 	b, rerr := os.ReadFile(path)
 	cerr := holder.Close()
 	if !returned {
-		select {
-		case attemptErr = <-done:
-		case <-time.After(8 * time.Second):
+		var ok bool
+		if attemptErr, ok = vt.Patience(rec, done, 8*time.Second); !ok {
 			return vt.Failf("blocked-with-no-holder", "entry %s, whose first open failed with %s, has not returned 8s after the holder released the lock", c.Entry, c.Errno)
 		}
 	}
